@@ -99,6 +99,11 @@ def coq_make(targets=None):
 
 def coqc(relpath, timeout=COQ_TIMEOUT):
     """Compile one file under coq/ (full check) and return (ok, output)."""
+    if relpath.startswith("Gen/"):
+        head = "".join(l for l in open(os.path.join(COQ, relpath)) if "Require" in l)
+        berr = ensure_built(head)
+        if berr:
+            return False, berr[0]
     rc, out = _sh(["timeout", str(timeout), "coqc", "-Q", ".", "Bobo", "-w", "-all", relpath], COQ,
                   timeout + 30)
     return rc == 0, out
@@ -171,11 +176,25 @@ def _parse_mismatches(out):
     return res
 
 
+def ensure_built(imports, preamble=""):
+    """make the .vo of every module a generated file imports (they need not be dependencies of the property
+    files, so the property build alone can leave them stale after a model change)"""
+    mods = set(re.findall(r"\b((?:Base|Model|Proofs|Properties)\.[A-Za-z0-9_]+)", imports + " " + preamble))
+    tg = sorted(m.replace(".", "/") + ".vo" for m in mods if os.path.exists(os.path.join(COQ, m.replace(".", "/") + ".v")))
+    if not tg:
+        return []
+    ok, out = coq_make(tg)
+    return [] if ok else ["building %s failed: %s" % (" ".join(tg), out[-1500:])]
+
+
 def coq_run_cases(tag, imports, func, intype, cases, shard=300, preamble=""):
     """cases: list of (coq_input_term, expected list[int]).
     Evaluates `func input` inside Coq (vm_compute) for every case and returns
     (list of (case index, model output) for every disagreement, errors list)."""
     os.makedirs(GEN, exist_ok=True)
+    berr = ensure_built(imports, preamble)
+    if berr:
+        return [], berr
     tag = "%s_p%d" % (tag, os.getpid())          # concurrent checks (other trees, other tiers) must not share files
     shards = [cases[i:i + shard] for i in range(0, len(cases), shard)]
     names = []
@@ -219,6 +238,9 @@ def coq_run_cases(tag, imports, func, intype, cases, shard=300, preamble=""):
 def coq_eval(tag, imports, expr, timeout=COQ_TIMEOUT):
     """Evaluate one expression of type list Z inside Coq; returns list[int] or None."""
     os.makedirs(GEN, exist_ok=True)
+    berr = ensure_built(imports)
+    if berr:
+        return None, berr[0]
     name = "eval_%s_p%d" % (tag, os.getpid())
     with open(os.path.join(GEN, name + ".v"), "w") as f:
         f.write("From Bobo Require Import Base.Prelude %s.\n" % imports)
